@@ -73,6 +73,51 @@ pub open spec fn row7(e: BigWigAverageOverBedEntry) -> Row { row_spec(fmt7(), (e
 /// the whole line: name column, a tab, the statistics
 pub open spec fn out_line(name: NameText, stats: Row) -> Line { line_spec("{}\t{}", (name, stats)) }
 
+// ---------------- which statistics a row is built from (both copies) ----------------
+//@extract enum bigtools/src/bbi/bbiread.rs BBIReadError
+//@rule R8
+//@sub /[ \t]*#\[error\([^\n]*\)\]\n/ => "" min=5
+//@sub /#\[from\] io::Error/ => IoErr
+//@sub /#\[from\] BedValueError/ => BedValueErr
+//@sub /String/ => ErrText min=2
+//@end
+#[verifier::external_body] pub struct BedValueErr { _p: u8 }
+#[verifier::external_body] pub struct ErrText { _p: u8 }
+#[verifier::external_body] pub struct CirTreeSearchError { _p: u8 }
+/// `Box<dyn Error + Send + Sync>` made from a read error by `e.into()` (opaque)
+#[verifier::external_body] pub struct AnyErr { _p: u8 }
+#[verifier::external_body] pub fn any_err(e: BBIReadError) -> (r: AnyErr) { unimplemented!() }
+/// the region's statistics as `stats_for_bed_item` returned them are what the row shows: C17 is about regions
+/// on a chromosome PRESENT in the bigWig, for which `stats_for_bed_item` returns Ok (unit stats) -- whatever the
+/// number of covered bases ("NaN means and extrema when nothing is covered" are inside `s`, unit stats)
+pub open spec fn shows_the_computed_stats(res: Result<BigWigAverageOverBedEntry, BBIReadError>, r: Result<BigWigAverageOverBedEntry, AnyErr>) -> bool {
+    res matches Ok(s) ==> r == Ok::<BigWigAverageOverBedEntry, AnyErr>(s)
+}
+// multi-threaded copy: `let entry = match stats_for_bed_item(chrom, entry, inbigwig) { ARMS };` of process_chunk
+//@extract fn bigtools/src/utils/cli/bigwigaverageoverbed.rs process_chunk
+//@presub /\A.*?\n([ \t]*)let entry = match stats_for_bed_item\([^)]*\) \{(.*?)\n\1\};\n.*\Z/ => fn entry_mt(res: Result<BigWigAverageOverBedEntry, BBIReadError>, size: u32) -> Result<BigWigAverageOverBedEntry, AnyErr> {\n    let entry = match res {\2\n    };\n    Ok(entry)\n} min=1 count=1
+//@sub /\be\.into\(\)/ => any_err(e) min=0
+//@ret r
+//@sig
+    ensures
+        [[L: mt/row_shows_the_statistics_computed_for_the_region]]
+        shows_the_computed_stats(res, r),
+        [[L: mt/read_errors_other_than_unknown_chromosome_are_reported]]
+        (res matches Err(e) && !(e is InvalidChromosome)) ==> r is Err,
+//@end
+// single-threaded copy: the LAST such statement of `bigwigaverageoverbed`
+//@extract fn bigtools/src/utils/cli/bigwigaverageoverbed.rs bigwigaverageoverbed
+//@presub /\A.*\n([ \t]*)let entry = match stats_for_bed_item\([^)]*\) \{(.*?)\n\1\};\n.*\Z/ => fn entry_st(res: Result<BigWigAverageOverBedEntry, BBIReadError>, size: u32) -> Result<BigWigAverageOverBedEntry, AnyErr> {\n    let entry = match res {\2\n    };\n    Ok(entry)\n} min=1 count=1
+//@sub /\be\.into\(\)/ => any_err(e) min=0
+//@ret r
+//@sig
+    ensures
+        [[L: st/row_shows_the_statistics_computed_for_the_region]]
+        shows_the_computed_stats(res, r),
+        [[L: st/read_errors_other_than_unknown_chromosome_are_reported]]
+        (res matches Err(e) && !(e is InvalidChromosome)) ==> r is Err,
+//@end
+
 // ---- multi-threaded path: the FIRST `let stats = match add_min_max {..};` of `process_chunk` ----
 //@extract fn bigtools/src/utils/cli/bigwigaverageoverbed.rs process_chunk
 //@presub /\A.*?let stats = match add_min_max \{(.*?)\n[ \t]*\};\n.*\Z/ => fn stats_row_mt(entry: &BigWigAverageOverBedEntry, add_min_max: bool) -> Row {\n    let stats = match add_min_max {\1\n    };\n    stats\n} min=1 count=1
